@@ -303,6 +303,22 @@ class Env(object):
     __slots__ = ('a', 'b', 'NR', 'NF', 'bNR', 'NU', 'a_names', 'b_names')
 
 
+class NotNeutral(Exception):
+    """raised in strict mode when an operator receives operands on which Python and JavaScript differ"""
+
+
+STRICT = [False]
+
+
+def _need(cond):
+    if STRICT[0] and not cond:
+        raise NotNeutral()
+
+
+def _is_int(x):
+    return isinstance(x, int) and not isinstance(x, bool)
+
+
 def safe_get(rec, i):
     return rec[i] if (rec is not None and 0 <= i < len(rec)) else None
 
@@ -329,13 +345,20 @@ def ev(e, env):
     if k == 'NU':
         return env.NU
     if k == 'cat':
-        return ev(e[1], env) + ev(e[2], env)
+        x, y = ev(e[1], env), ev(e[2], env)
+        _need(isinstance(x, str) and isinstance(y, str))
+        return x + y
     if k == 'arith':
         x, y = ev(e[2], env), ev(e[3], env)
+        _need(_is_int(x) and _is_int(y))
         return x + y if e[1] == '+' else (x - y if e[1] == '-' else x * y)
     if k == 'cmp':
         x, y = ev(e[2], env), ev(e[3], env)
         op = e[1]
+        if op in ('==', '!='):
+            _need(x is None or y is None or (type(x) is type(y) and isinstance(x, (str, int)) and not isinstance(x, bool)))
+        else:
+            _need(type(x) is type(y) and isinstance(x, (str, int)) and not isinstance(x, bool))
         if op == '==':
             return x == y
         if op == '!=':
@@ -348,30 +371,53 @@ def ev(e, env):
             return x <= y
         return x >= y
     if k == 'and':
-        return ev(e[1], env) and ev(e[2], env)
+        x = ev(e[1], env)
+        _need(isinstance(x, bool))
+        if not x:
+            return x
+        y = ev(e[2], env)
+        _need(isinstance(y, bool))
+        return y
     if k == 'or':
-        return ev(e[1], env) or ev(e[2], env)
+        x = ev(e[1], env)
+        _need(isinstance(x, bool))
+        if x:
+            return x
+        y = ev(e[2], env)
+        _need(isinstance(y, bool))
+        return y
     if k == 'not':
-        return not ev(e[1], env)
+        x = ev(e[1], env)
+        _need(isinstance(x, bool))
+        return not x
     if k == 'paren':
         return ev(e[1], env)
     if k == 'like':
         t = ev(e[1], env)
+        _need(isinstance(t, str))
         if not isinstance(t, str):
             raise TypeError('like on non-string')
         return reflike.like(t, e[2])
     if k == 'len':
-        return len(ev(e[1], env))
+        x = ev(e[1], env)
+        _need(isinstance(x, str))
+        return len(x)
     if k == 'upper':
-        return ev(e[1], env).upper()
+        x = ev(e[1], env)
+        _need(isinstance(x, str))
+        return x.upper()
     if k == 'split':
-        return ev(e[1], env).split(e[2])
+        x = ev(e[1], env)
+        _need(isinstance(x, str) and e[2] != '')
+        return x.split(e[2])
     if k == 'list':
         return [ev(x, env) for x in e[1:]]
     if k == 'tuple':
         return tuple(ev(x, env) for x in e[1:])
     if k == 'call':
         return {'max': max, 'min': min}[e[1]](*[ev(x, env) for x in e[2:]])
+    if k in ('toint', 'tofloat', 'bmax', 'bmin', 'bminlist', 'bsumlist', 'call', 'tuple'):
+        _need(False)
     if k == 'toint':
         return int(ev(e[1], env))
     if k == 'tofloat':
@@ -387,6 +433,12 @@ def ev(e, env):
     if k == 'alias':
         return ev(e[1], env)
     raise AssertionError(e)
+
+
+def truth(e, env):
+    v = ev(e, env)
+    _need(isinstance(v, bool))
+    return v
 
 
 class _Unnest(object):
@@ -517,6 +569,17 @@ def check_b_keys(q, B):
                 raise RefError('runtime_b', bi + 1, 'B key missing')
 
 
+def evaluate_neutral(q, A, B=None, a_names=None, b_names=None):
+    """Reference outcome for the language-neutral reading, or None if the case feeds an operator with operands on which Python and JavaScript differ."""
+    STRICT[0] = True
+    try:
+        return evaluate(q, A, B, a_names, b_names)
+    except NotNeutral:
+        return None
+    finally:
+        STRICT[0] = False
+
+
 def evaluate(q, A, B=None, a_names=None, b_names=None, limit_pull=None):
     """Reference outcome. A, B: lists of lists. Never mutates its inputs."""
     try:
@@ -559,7 +622,7 @@ def _evaluate(q, A, B, a_names, b_names):
     def guarded(nr, fn):
         try:
             return fn()
-        except RefError:
+        except (RefError, NotNeutral):
             raise
         except Exception as e:
             raise RefError('runtime', nr, repr(e))
@@ -582,7 +645,7 @@ def _evaluate(q, A, B, a_names, b_names):
                     env.bNR, env.b = ms[0]
                 else:
                     env.bNR, env.b = None, None
-            if matched and guarded(nr, lambda: where is None or ev(where, env)):
+            if matched and guarded(nr, lambda: where is None or truth(where, env)):
                 env.NU += 1
                 for tgt, rhs in q['assign']:
                     v = guarded(nr, lambda: ev(rhs, env))
@@ -614,7 +677,7 @@ def _evaluate(q, A, B, a_names, b_names):
         for i, rec in enumerate(A):
             nr = i + 1
             for _isnull in pairings(nr, rec):
-                if not guarded(nr, lambda: where is None or ev(where, env)):
+                if not guarded(nr, lambda: where is None or truth(where, env)):
                     continue
                 for it in items:
                     s = strip_alias(it)
@@ -680,7 +743,7 @@ def _evaluate(q, A, B, a_names, b_names):
             pulled = 0
             break
         for _isnull in pairings(nr, rec):
-            if not guarded(nr, lambda: where is None or ev(where, env)):
+            if not guarded(nr, lambda: where is None or truth(where, env)):
                 continue
             if q.get('except_cols') is not None:
                 rows = [[v for idx, v in enumerate(rec) if idx not in skip]]
@@ -806,8 +869,8 @@ def same_value(exp, got, tol=1e-9):
         return isinstance(got, list) and len(exp) == len(got) and all(same_value(x, y, tol) for x, y in zip(exp, got))
     if isinstance(exp, bool) or isinstance(got, bool):
         return type(exp) is type(got) and exp == got
-    if isinstance(exp, int) and isinstance(got, (int, float)) and not isinstance(got, bool):
-        return exp == got
+    if isinstance(exp, (int, float)) and isinstance(got, (int, float)) and not isinstance(got, bool):
+        return exp == got or (isinstance(exp, float) and abs(exp - got) <= tol * max(1.0, abs(exp)))
     if exp is None:
         return got is None
     return type(exp) is type(got) and exp == got
